@@ -34,7 +34,8 @@ Skeletons == SubSeq(LongSkeletons, 1, LongN) \o
      <<"Integer", <<TX("("), HA, TX(" add "), HB, TX(") mul 2 lt n")>>>>, <<"Integer", <<TX("n mod "), HA, TX(" eq "), HB>>>>,
      <<"Integer", <<TX("cs/any(x: x/n eq "), HA, TX(")")>>>>, <<"Integer", <<TX("a/p eq "), HA, TX(" or n in ("), HB, TX(",)")>>>>,
      <<"Integer", <<TX("substring(s, "), HA, TX(") eq 'k'")>>>>, <<"Integer", <<TX("length(s) eq "), HA, TX(" sub "), HB>>>>,
-     <<"Float", <<TX("f lt "), HA>>>>, <<"Float", <<TX("f mul "), HA, TX(" gt "), HB>>>>, <<"Float", <<TX("round(f) eq "), HA>>>>,
+     <<"Float", <<TX("f lt "), HA>>>>, <<"Float", <<TX("ceiling(f mul "), HA, TX(") eq 3")>>>>, <<"Float", <<TX("floor(f add "), HA, TX(") gt "), HB>>>>,
+     <<"Integer", <<TX("round(f div "), HA, TX(") eq "), HB>>>>, <<"Float", <<TX("f mul "), HA, TX(" gt "), HB>>>>, <<"Float", <<TX("round(f) eq "), HA>>>>,
      <<"String", <<TX("s eq "), HA>>>>, <<"String", <<HA, TX(" eq concat(s, "), HB, TX(")")>>>>, <<"String", <<HA, TX(" eq substring(s, 2)")>>>>,
      <<"String", <<TX("not ("), HA, TX(" ne tolower(concat("), HB, TX(", s)))")>>>>, <<"Integer", <<HA, TX(" eq indexof(s, 'wi')")>>>>,
      <<"String", <<TX("2 eq indexof(s, "), HA, TX(")")>>>>, <<"String", <<TX("contains(s, "), HA, TX(")")>>>>, <<"String", <<TX("startswith(s, "), HA, TX(")")>>>>,
